@@ -233,6 +233,21 @@ def loader_rules(ctx):
         # load: inside a file template looks next to that template first
         check("load: relative to the template first", PageTemplateFile(os.path.join(d2, "main.pt"), search_path=[d1])(), "<p>inc.pt in d2</p>")
         check("load: falls back to the search path", PageTemplateFile(os.path.join(d1, "main1.pt"), search_path=[d2])(), "<p>y.pt in d2</p>")
+        # one name requested in both formats: each format has its own instance of its own class, in either order
+        from chameleon.zpt.template import PageTemplateFile as PTF, PageTextTemplateFile as PTTF
+        open(os.path.join(d1, "both.pt"), "w").write("<p>${v}</p>")
+        for order in (("text", "xml", "text", "xml"), ("xml", "text", "xml"), ("text", None, "xml")):
+            Lf = TemplateLoader([d1])
+            got = [Lf.load("both.pt", f) if f else Lf.load("both.pt") for f in order]
+            for f, t in zip(order, got):
+                check("format %s requested in the order %s: class" % (f, list(order)), type(t).__name__,
+                      (PTTF if f == "text" else PTF).__name__)
+                want = b"<p><&></p>" if f == "text" else "<p>&lt;&amp;&gt;</p>"
+                check("format %s requested in the order %s: rendering" % (f, list(order)), t(v="<&>"), want)
+            for i in range(len(order)):
+                for j in range(i):
+                    same = (order[i] or "xml") == (order[j] or "xml")
+                    check("formats %s / %s of one name: same instance" % (order[j], order[i]), got[i] is got[j], same)
         # ... for every place of the template's own directory on (or off) the search path and every placement of the
         # loaded name: the first match along  [directory of the template] + search path
         import itertools
